@@ -212,6 +212,36 @@ def scan_module(mod, tree, sites, mutdefaults, globals_mut):
                 continue
             sites.append({"module": mod, "function": f.name if f else "<module>", "line": n.lineno, "expr": U(n)[:100],
                           "class": cls, "why": why})
+    # module-level names bound to a mutable container: a function that mutates one keeps state between calls
+    MUT_CTORS = ("list", "dict", "set", "OrderedDict", "defaultdict", "deque", "Counter")
+    MUT_METHODS = {"append", "extend", "add", "update", "setdefault", "pop", "popitem", "clear", "insert", "remove", "discard", "sort",
+                   "reverse", "__setitem__", "appendleft"}
+    mod_mutables = set()
+    for st in tree.body:
+        tgt, val = None, None
+        if isinstance(st, ast.Assign) and len(st.targets) == 1 and isinstance(st.targets[0], ast.Name):
+            tgt, val = st.targets[0].id, st.value
+        elif isinstance(st, ast.AnnAssign) and isinstance(st.target, ast.Name) and st.value is not None:
+            tgt, val = st.target.id, st.value
+        if tgt and (isinstance(val, (ast.List, ast.Dict, ast.Set, ast.ListComp, ast.DictComp, ast.SetComp)) or
+                    (isinstance(val, ast.Call) and tname(val.func) in MUT_CTORS)):
+            mod_mutables.add(tgt)
+    for f in funcs:
+        local = {a.arg for a in f.args.posonlyargs + f.args.args + f.args.kwonlyargs} | \
+            {n.id for n in ast.walk(f) if isinstance(n, ast.Name) and isinstance(n.ctx, ast.Store)}
+        for n in ast.walk(f):
+            name = None
+            if isinstance(n, (ast.Assign, ast.AugAssign, ast.Delete)):
+                tg = n.targets if isinstance(n, (ast.Assign, ast.Delete)) else [n.target]
+                for t in tg:
+                    if isinstance(t, ast.Subscript) and isinstance(t.value, ast.Name):
+                        name = t.value.id
+                    elif isinstance(n, ast.AugAssign) and isinstance(t, ast.Name):
+                        name = t.id
+            elif isinstance(n, ast.Call) and isinstance(n.func, ast.Attribute) and n.func.attr in MUT_METHODS and isinstance(n.func.value, ast.Name):
+                name = n.func.value.id
+            if name in mod_mutables and name not in local:
+                globals_mut.append({"module": mod, "function": f.name, "line": n.lineno, "what": "mutates module-level " + name})
     for f in funcs:
         a = f.args
         for d in a.defaults + [x for x in a.kw_defaults if x is not None]:
